@@ -14,7 +14,7 @@ T = {
                 text="Exhaustive enumeration on the real generated code: for every base u1..u16 every (lo,hi) x field kind and all 2^N raw values; wide bases through boundary/ladder/edge families (quick) or every (lo,hi) of every base up to u128 (thorough, incl. all 2^32 raw values of a u32 base) with the state alphabet A(N). Each getter observation is compared with REG.",
                 ref="DESIGN.md 6/C01", note=REGMC_NOTE),
     'C02': dict(engine='regmc', technique="explicit-state enumeration of (state, field, value) transitions for with_ and set_, step-wise comparison with the reference register",
-                text="Every transition (raw value, field, value, with_|set_) of the layout alphabet is executed on the generated code and compared with REG's ref_put (frame condition), the read-back and the set_/with_ agreement; all 2^N x 2^w combinations for N<=16, w<=8 (thorough: w<=16), alphabets above.",
+                text="Every transition (raw value, field, value, with_|set_) of the layout alphabet is executed on the generated code and compared with REG's ref_put (frame condition), the read-back and the set_/with_ agreement; all 2^N x 2^w combinations for N<=16, w<=8 (thorough: w<=16), alphabets above. Range lists that name a bit twice (accepted; values undetermined) are swept with the partial oracle 'no panic, bits outside the named set unchanged, set_ == with_'.",
                 ref="DESIGN.md 6/C02", note=REGMC_NOTE),
     'C03': dict(engine='regmc', technique="explicit-state enumeration over array layouts: every element index, state, value, plus an out-of-range index alphabet that must panic",
                 text="All array layouts (lo, w, stride, K) that fit bases up to u16, boundary families for wide bases, multi-range element arrays; every in-range index against REG with the index*stride offset; every out-of-range index of the alphabet must panic in get/with_/set_ and leave the set_ receiver untouched.",
@@ -38,7 +38,7 @@ T.update({
                 text="Exhaustive enums, Option<non-exhaustive enum> (widths 1..8, 9, 16, 17, 32, 33, 63, 64) and nested bitfields (11 widths) placed as scalars (incl. full-width), arrays, split ranges and multi-range arrays on every base <=16 (all states) and the wide bases (alphabet); getter must equal T::new_with_raw_value(ref_get), writes must equal ref_put(T::raw_value).",
                 ref="DESIGN.md 6/C08", note=REGMC_NOTE),
     'C16': dict(engine='regmc', technique="the exhaustive sweeps of C01-C05/C07/C08 executed in two build profiles; panic observations and per-machine observation digests compared",
-                text="All quick machine sets are built with opt-level 0 + overflow checks + debug assertions and with opt-level 3 without, and swept identically against REG; any Panicked observation other than an out-of-range index, any reference mismatch in either profile and any digest difference between the profiles is a violation.",
+                text="All quick machine sets are built with opt-level 0 + overflow checks + debug assertions and with opt-level 3 without, and swept identically against REG; any Panicked observation other than an out-of-range index, any reference mismatch in either profile and any digest difference between the profiles is a violation. Accepted declarations whose values no property fixes (range lists naming a bit twice, accepted out-of-range declarations) are swept too, with the panic / outside-the-field / digest oracles only.",
                 ref="DESIGN.md 6/C16", note=REGMC_NOTE + " 'Any optimisation level' is covered as that pair of profiles."),
 })
 
@@ -50,7 +50,7 @@ T.update({
                 text="Mixed layouts with overlapping fields and overlapping array elements, one per base; N<=16: every state x every write action, successor compared bit for bit with the shadow and observed through every getter, state set closed => histories of every length; wide bases: depth-2 (thorough: 3) BFS from A(N); stateright and the sweeper must agree on the unique-state counts for N<=12.",
                 ref="DESIGN.md 6/C12", note=REGMC_NOTE + " For bases wider than 16 bits histories are bounded by the stated depth."),
     'C13': dict(engine='regmc', technique="bounded-exhaustive enumeration of builder layouts x argument tuples (full product up to a cap), builder chain vs fold of with_ from DEFAULT/ZERO and vs the reference register",
-                text="All compositions of N<=8 (thorough 10) bits into 1-4 fields in several declaration orders, with default / read-only part / uncovered gap, arrays of every K on u8/u16 and large K on wide bases, multi-range/interleaved/signed/enum/nested steps, arbitrary-int bases; every argument tuple of the full product (<= 65536, thorough 2^22) or one-factor-at-a-time beyond it.",
+                text="All compositions of N<=8 (thorough 14) bits into 1-4 fields in several declaration orders, with default / read-only part / uncovered gap, arrays of every K on u8/u16 and large K on wide bases, multi-range/interleaved/signed/enum/nested steps, arbitrary-int bases; every argument tuple of the full product (<= 65536, thorough 2^22) or one-factor-at-a-time beyond it.",
                 ref="DESIGN.md 6/C13", note=REGMC_NOTE),
 })
 
@@ -67,7 +67,7 @@ T.update({
     'C17': dict(engine='declmc', technique="bounded-exhaustive enumeration of field kind x access x base; presence probes must compile, absence probes must be rejected by rustc",
                 text="Every field kind (14-16 kinds incl. arrays, multi-range, enums, Option<enum>, nested) x access {r,w,rw,none} x bases x neighbourhood; getter / with_ / set_ / builder-step probes compared with the API reference model.",
                 ref="DESIGN.md 6/C17", note=DECL_NOTE),
-    'C19': dict(engine='regmc', technique="explicit-state enumeration of all raw values (N<=12/16) x debug layouts; {:?} and {:#?} text compared with a derive(Debug) twin filled from the reference register",
+    'C19': dict(engine='regmc', technique="explicit-state enumeration of all raw values (N<=12/20) x debug layouts (1..128 fields); {:?} and {:#?} text compared with a derive(Debug) twin filled from the reference register",
                 text="Debug layouts with every readable scalar kind in several declaration orders; for every raw value (all 2^N for small bases, alphabet for wide) both format modes must equal the text rustc's derive(Debug) produces for a twin struct holding the reference values.",
                 ref="DESIGN.md 6/C19", note=REGMC_NOTE + " rustc's derive(Debug) defines the standard struct format."),
 })
@@ -76,8 +76,8 @@ T.update({
     'C15': dict(engine='regmc', technique="exhaustive compile-time tables (rustc's const evaluator runs every generated const fn over all 2^N states for N<=8) compared entry by entry with run-time execution",
                 text="For a cross-section of layouts and bitenums, `static` tables over the whole state space (N<=8; alphabets above) are computed in const context for raw_value, every getter, every with_, builder chains + build(), ZERO, DEFAULT, new() and both enum conversions; a non-const generated fn fails the build with E0015 (reported as a violation); every entry is compared with the same call at run time.",
                 ref="DESIGN.md 6/C15", note=REGMC_NOTE + " The const evaluator of rustc 1.95 is trusted to be the 'const context'."),
-    'C18': dict(engine='declmc', technique="bounded-exhaustive enumeration of a documented layout cross-section x 4 crate-level regimes compiled by rustc, plus a syn scan of the -Zunpretty=expanded token stream",
-                text="Several hundred documented structs and enums covering every feature are compiled under #![no_std], #![deny(missing_docs)], #![forbid(unsafe_code)] and all three; the macro-expanded source is parsed and every path/unsafe token checked (no unsafe outside compiler derives, nothing rooted outside core/arbitrary_int).",
+    'C18': dict(engine='declmc', technique="bounded-exhaustive enumeration of a documented layout cross-section x 6 compile regimes (rustc), plus a syn scan of the -Zunpretty=expanded token stream",
+                text="Several hundred documented structs and enums covering every feature are compiled under #![no_std], #![deny(missing_docs)], #![forbid(unsafe_code)], all three, inside a module that has its own item named `core`, and inside a module that imports none of arbitrary_int's names; the macro-expanded source is parsed and every path/unsafe token checked (no unsafe outside compiler derives, nothing rooted outside core/arbitrary_int).",
                 ref="DESIGN.md 6/C18", note=DECL_NOTE),
 })
 
